@@ -382,6 +382,12 @@ func (rc *replayCtx) goValue(v Val, t types.Type, depth int) (string, bool) {
 
 // tryReplay builds and runs the replay test for a refuted obligation.
 func tryReplay(g *Global, r *OblResult, dir string) *ReplayResult {
+	return replayObligation(g, r, false)
+}
+
+// replayObligation: relaxed=true searches a candidate input with the quantified facts dropped
+// (for obligations that failed without a model).
+func replayObligation(g *Global, r *OblResult, relaxed bool) *ReplayResult {
 	fr := r.FR
 	if fr == nil || fr.vc == nil || fr.vc.fn == nil {
 		return nil
@@ -438,6 +444,9 @@ func tryReplay(g *Global, r *OblResult, dir string) *ReplayResult {
 			break
 		}
 		rc.script = build()
+		if relaxed {
+			rc.script = relaxQuantifiers(rc.script)
+		}
 		if !rc.query() {
 			return &ReplayResult{Log: "no replay: " + rc.fail}
 		}
@@ -484,6 +493,7 @@ func tryReplay(g *Global, r *OblResult, dir string) *ReplayResult {
 	}
 	gc := &goCompiler{vc: vc, names: names, oldName: oldNames, lets: map[string]Expr{}, typeEnv: tenv, imports: rc.imports, bound: map[string]bool{}}
 	reqSrc, clauseSrc, clauseNote := "true", "", ""
+	reqIncomplete := false
 	if vc.contract != nil {
 		for _, l := range vc.contract.Lets {
 			gc.lets[l.Name] = l.E
@@ -494,6 +504,7 @@ func tryReplay(g *Global, r *OblResult, dir string) *ReplayResult {
 			s, err := gc.compile(rq.E)
 			if err != nil {
 				clauseNote += "precondition not evaluable in Go (" + err.Error() + "): " + rq.Src + "\n"
+				reqIncomplete = true
 				continue
 			}
 			reqs = append(reqs, s)
@@ -608,6 +619,10 @@ func tryReplay(g *Global, r *OblResult, dir string) *ReplayResult {
 	}
 	if strings.Contains(o, "GOVC-REPLAY requires=false") {
 		// the model violates a precondition when evaluated concretely: not a real input
+		res.Confirmed = false
+	}
+	if reqIncomplete {
+		// a precondition could not be checked on the concrete input: the run proves nothing
 		res.Confirmed = false
 	}
 	if clauseNote != "" {
